@@ -224,12 +224,25 @@ TPubRemove == IsEvent("PubRemove") /\ Ok /\ PubRemove(Args.c) /\ Projected(Line.
 TPubAdd == IsEvent("PubAdd") /\ Ok /\ PubAdd(Args.c) /\ Projected(Line.abs)
 TRepoSyncAll == IsEvent("RepoSyncAll") /\ Ok /\ RepoSyncAll /\ Projected(Line.abs)
 
+\* a child that is not hosted by this instance: added at its parent, and its
+\* provisioning requests (a signed message through CaManager::rfc6492; an
+\* issuance request is answered with an error exactly when the limit is not
+\* within what the parent offers)
+TAddForeign == IsEvent("AddForeign") /\ Ok
+          /\ AddForeign(Args.c, Args.p, SetOf(Args.res)) /\ Projected(Line.abs)
+TFList == IsEvent("FList") /\ Ok /\ FList(Args.c) /\ Projected(Line.abs)
+FLimit == IF Args.nolim THEN Offer(Args.c) ELSE SetOf(Args.lim)
+TFIssue == IsEvent("FIssue") /\ (Ok \/ IsError) /\ FCall(Args.c)
+          /\ (Ok <=> FIssueOk(Args.c, FLimit))
+          /\ FIssue(Args.c, Args.x, FLimit) /\ Projected(Line.abs)
+TFRevoke == IsEvent("FRevoke") /\ Ok /\ FRevoke(Args.c, Args.x) /\ Projected(Line.abs)
+
 \* A request the code refuses must leave everything as it was.  (Whether a
 \* refusal is justified is C05's business; here the roll activation is the
 \* one refusal the hierarchy model itself predicts.)
 TRefused ==
     /\ l <= Len(Rec)
-    /\ Line.ev \in {"AddCa", "AddParent", "RemoveParent", "ChildRes", "ChildMap", "ChildSuspend", "ChildUnsuspend",
+    /\ Line.ev \in {"AddCa", "AddForeign", "AddParent", "RemoveParent", "ChildRes", "ChildMap", "ChildSuspend", "ChildUnsuspend",
                     "ChildRemove", "RoaAdd", "RoaDel", "RoaDelta", "AspaSet", "RtrAdd", "RtrDel", "RollInit",
                     "RollActivate", "DeleteCa"}
     /\ IsError /\ l' = l + 1 /\ rp' = Line.rp
@@ -382,6 +395,7 @@ TraceNextCa ==
     \/ TChildMap \/ TRoaAdd \/ TRoaDel \/ TRtrAdd \/ TRtrDel \/ TRoaDelta \/ TAspaSet \/ TAspaDel \/ TRollInit \/ TRollInitNoop
     \/ TRollActivate \/ TRollActivateNoop \/ TDeleteCa \/ TRefresh
     \/ TRefused \/ TStep \/ TRelease \/ TSettled \/ TPubRemove \/ TPubAdd \/ TRepoSyncAll
+    \/ TAddForeign \/ TFList \/ TFIssue \/ TFRevoke
     \/ TRepublish \/ TRenew \/ TRestart \/ TDueTouch \/ TRepublishByMargin \/ TExpectByMargin \/ TRepublishByStoreMargin \/ TExpectStoreByMargin \/ TMark \/ TExpectSame \/ TExpectReissued \/ TExpectRenewed
 
 TraceNext ==
